@@ -105,6 +105,7 @@ status_t ReaderWriterMutex :: LockReadWriteAux(uint64 optTimeoutTimestamp) const
          // tricky case:  we already have read-only access and we want to upgrade to read/write access
          // but there are other read-only threads executing so we need to Wait() until they are done
          // To avoid potential deadlocks, I'm going to just release all of our read-only locks and then re-lock everything
+         if (optTimeoutTimestamp == 0) return B_TIMED_OUT; // No point releasing our read-only locks if we know the upgrade can't succeed without Wait()-ing
          const uint32 readOnlyRecurseCount = ts->_readOnlyRecurseCount;
          mg.UnlockEarly();
 
